@@ -32,6 +32,7 @@ type cmpSite struct {
 	alias  map[string]string // operand written as a local -> the single value that local names (resolved)
 	mult   int               // for a comparison read through a helper: at how many call sites of the helper it reads the same
 	rop    token.Token       // the operator under which the path is REFUSED (error / false / non-ACCEPT / continue / break), when the comparison governs such a branch; 0 otherwise
+	multi  bool              // the comparison defines a flag that several conditions test: made more than once, on no one side
 	differ bool              // the two sides are known to differ here (the else of `a == b`): `>=` and `>` say the same, `<` and `<=` too
 }
 
@@ -367,6 +368,12 @@ func cmpsIn(pk *packages.Package, fd *ast.FuncDecl, fn string, subst map[types.O
 			}
 			return true
 		})
+		// a comparison kept in a flag that several conditions test (`isEmpty := a == b; if w || isEmpty {…}; if w &&
+		// isEmpty {…}`) is made once per test, each with its own side: it stands for as many comparisons as the reviewed code
+		// wrote out, and has no one side (not the side a stored boolean has by convention)
+		if flagTests := cmpFlagUses(info, fd, fparents, be); len(flagTests) >= 2 {
+			site.multi, site.rop = true, 0
+		}
 		out = append(out, site)
 		return true
 	})
@@ -655,7 +662,7 @@ func coefOfAtom(p Poly, re *regexp.Regexp) (int64, bool) {
 
 func init() {
 	register(&Rule{Name: "cmp.spec", Floor: 40,
-		Doc: "each boundary comparison of the specification that zrnt implements (252 reviewed entries: function, operands, operator, integer offset, the spec's wording) is made in its function — or in an unexported helper it calls, read at the call site with the arguments in place of the parameters — with the spec's CUT (`a < b`, `b > a`, `!(a >= b)`, `a <= b-1` are one cut; `<` for `<=` or a dropped +1 is another; where the two sides are known to differ — the else of `a == b` — the boundary cannot be reached and all four inequalities are one cut) and, where a branch refuses or skips, on the spec's SIDE of it (an inverted test with swapped branches keeps the side, a flipped operator does not; comparisons that only govern actions are read through one recorded field/function/constant of the governed action). Operands are matched by name, failing that in resolved form (locals, alias paths and one-line helpers read through) or type-named resolved form; the reviewed shape over ANOTHER value of the same type is a violation. In five proto-array query functions coverage is closed: a refusing or skipping comparison that no entry accounts for is reported",
+		Doc: "each boundary comparison of the specification that zrnt implements (252 reviewed entries: function, operands, operator, integer offset, the spec's wording) is made in its function — or in an unexported helper it calls, read at the call site with the arguments in place of the parameters — with the spec's CUT (`a < b`, `b > a`, `!(a >= b)`, `a <= b-1` are one cut; `<` for `<=` or a dropped +1 is another; where the two sides are known to differ — the else of `a == b` — the boundary cannot be reached and all four inequalities are one cut) and, where a branch refuses or skips, on the spec's SIDE of it (an inverted test with swapped branches keeps the side, a flipped operator does not; comparisons that only govern actions are read through one recorded field/function/constant of the governed action). Operands are matched by name, failing that in resolved form (locals, alias paths and one-line helpers read through) or type-named resolved form; the reviewed shape over ANOTHER value of the same type is a violation. A comparison kept in a flag that several conditions test stands for as many comparisons as were reviewed, on no one side. In five proto-array query functions coverage is closed: a refusing or skipping comparison that no entry accounts for is reported (undecided when a reviewed comparison of the same shape was not found in that function)",
 		Run: ruleCmpSpec})
 	if len(os.Args) > 1 && os.Args[1] == "cmps" {
 		p, err := load(loadOpts{repo: dumpRepo()})
@@ -686,6 +693,7 @@ func init() {
 
 func ruleCmpSpec(c *Ctx) {
 	all := collectCmps(c.P)
+	notFoundShapes := map[string][]string{} // per function: the shapes of the reviewed comparisons that were not found
 	// group entries that talk about the same operands in the same function: the set of (operator, offset) pairs found
 	// must equal the set the spec prescribes
 	type group struct {
@@ -851,8 +859,8 @@ func ruleCmpSpec(c *Ctx) {
 			// its locals it compares something else: a same-typed value was put in the operand's place
 			var shape *cmpSite
 			for i := range sites {
-				if claimed[sites[i].pos] || sites[i].from != "" {
-					continue
+				if claimed[sites[i].pos] || sites[i].from != "" || sites[i].full {
+					continue // (the bound of a plain counting loop is nobody's operand)
 				}
 				for _, e := range g.entries {
 					if e.abs != "" && canonCutAbs(sites[i].pa, sites[i].cop()) == e.abs && e.ra != "" && canonCutAbs(sites[i].pra, sites[i].cop()) != e.ra {
@@ -875,6 +883,9 @@ func ruleCmpSpec(c *Ctx) {
 			if shape != nil {
 				c.bad(key, shape.pos, "%s: the spec's comparison (%s) is not made; `%s` has its shape but, read through its locals, compares %s where the reviewed code compares %s: another value of the same type was put in an operand's place", g.fn, specStr, shape.text, canonCut(shape.pr, shape.cop()), g.entries[0].res)
 				continue
+			}
+			for _, e := range g.entries {
+				notFoundShapes[g.fn] = append(notFoundShapes[g.fn], blindShape(e.coefs, e.k, e.op))
 			}
 			c.unm(key, sites[0].pos, "comparison not found in %s (spec: %s)", g.fn, specStr)
 			continue
@@ -944,6 +955,7 @@ func ruleCmpSpec(c *Ctx) {
 			}
 		}
 		got := map[string]int{}
+		multiSg := map[string]bool{}
 		perOrigin := map[string]map[string]int{}
 		gotText := map[string]string{}
 		originSeen := map[string]bool{}
@@ -978,6 +990,9 @@ func ruleCmpSpec(c *Ctx) {
 				sg = psig(rop.String(), p[""], coefs)
 			}
 			got[sg]++
+			if s.multi {
+				multiSg[sg] = true
+			}
 			gotText[sg] = s.text
 			if perOrigin[sg] == nil {
 				perOrigin[sg] = map[string]int{}
@@ -999,7 +1014,7 @@ func ruleCmpSpec(c *Ctx) {
 					over = true // more often within ONE function than reviewed: not a repeated helper, a changed test
 				}
 			}
-			if want[sg] == 0 || n < want[sg] || over {
+			if want[sg] == 0 || (n < want[sg] && !multiSg[sg]) || over {
 				bad = true
 				c.bad(key, matched[0].pos, "`%s` normalises to operator/offset/coefficients (%s) x%d; the spec prescribes {%s} here: %s (an off-by-one or a flipped operator at this boundary accepts or rejects exactly the edge case)", gotText[sg], sg, n, fmtWant(want), specStr)
 				break
@@ -1007,7 +1022,7 @@ func ruleCmpSpec(c *Ctx) {
 		}
 		if !bad {
 			for sg, n := range want {
-				if got[sg] < n {
+				if got[sg] < n && !multiSg[sg] {
 					bad = true
 					c.bad(key, matched[0].pos, "the spec's comparison (%s) x%d is missing in %s; found {%s}: %s", sg, n, g.fn, fmtWant(got), specStr)
 					break
@@ -1042,6 +1057,25 @@ func ruleCmpSpec(c *Ctx) {
 				continue
 			}
 			extra++
+			// a reviewed comparison of this function was not found and this one has its shape (same coefficients, offset
+			// and cut over other names): it may be that comparison rewritten over other variables — undecided
+			{
+				var coefs []int64
+				for _, a := range atomsOf(s.p) {
+					coefs = append(coefs, s.p[a])
+				}
+				shape, same := blindShape(coefs, s.p[""], s.op.String()), -1
+				for k, w := range notFoundShapes[fn] {
+					if w == shape && same < 0 {
+						same = k
+					}
+				}
+				if same >= 0 {
+					notFoundShapes[fn] = append(notFoundShapes[fn][:same:same], notFoundShapes[fn][same+1:]...)
+					c.unm(fmt.Sprintf("%s[closed]#%d", fn, extra), s.pos, "%s refuses or skips on `%s`, which no reviewed entry accounts for by name, resolved form or type; a reviewed comparison of the same shape was not found in the function, so this may be that comparison over other variables: not decided", fn, s.text)
+					continue
+				}
+			}
 			c.bad(fmt.Sprintf("%s[closed]#%d", fn, extra), s.pos, "%s refuses or skips on `%s`, a comparison no reviewed entry accounts for: every early exit of this function was read against what the query must return, this one was not (an added pre-filter or guard changes which nodes are answered)", fn, s.text)
 		}
 		if extra == 0 {
@@ -1049,6 +1083,115 @@ func ruleCmpSpec(c *Ctx) {
 		}
 	}
 
+}
+
+// cmpFlagUses: be is the whole right side of `flag := <be>`, flag a local that is never assigned again: the places where
+// flag is read inside the condition of an if / for / case (nil when it is read anywhere else as well).
+func cmpFlagUses(info *types.Info, fd *ast.FuncDecl, parents map[ast.Node]ast.Node, be *ast.BinaryExpr) []ast.Node {
+	var cur ast.Node = be
+	for {
+		if pe, ok := parents[cur].(*ast.ParenExpr); ok {
+			cur = pe
+			continue
+		}
+		break
+	}
+	as, ok := parents[cur].(*ast.AssignStmt)
+	if !ok || as.Tok != token.DEFINE || len(as.Lhs) != 1 || len(as.Rhs) != 1 || as.Rhs[0] != cur {
+		return nil
+	}
+	fid, ok := as.Lhs[0].(*ast.Ident)
+	if !ok || info.Defs[fid] == nil {
+		return nil
+	}
+	o := info.Defs[fid]
+	var uses []ast.Node
+	fine := true
+	ast.Inspect(fd.Body, func(k ast.Node) bool {
+		switch x := k.(type) {
+		case *ast.AssignStmt:
+			if x != as {
+				for _, l := range x.Lhs {
+					if lid, ok := ast.Unparen(l).(*ast.Ident); ok && info.ObjectOf(lid) == o {
+						fine = false
+					}
+				}
+			}
+		case *ast.Ident:
+			if info.Uses[x] != o {
+				return true
+			}
+			// inside a condition?
+			var c ast.Node = x
+			for {
+				up := parents[c]
+				switch u := up.(type) {
+				case *ast.ParenExpr:
+					c = u
+					continue
+				case *ast.UnaryExpr:
+					if u.Op == token.NOT {
+						c = u
+						continue
+					}
+				case *ast.BinaryExpr:
+					if u.Op == token.LAND || u.Op == token.LOR {
+						c = u
+						continue
+					}
+				case *ast.IfStmt:
+					if u.Cond == c {
+						uses = append(uses, x)
+						return true
+					}
+				case *ast.ForStmt:
+					if u.Cond == c {
+						uses = append(uses, x)
+						return true
+					}
+				case *ast.CaseClause:
+					uses = append(uses, x)
+					return true
+				}
+				break
+			}
+			fine = false
+		}
+		return fine
+	})
+	if !fine {
+		return nil
+	}
+	return uses
+}
+
+// blindShape: a comparison without its operands' names: the coefficients, the offset and the cut, in the orientation
+// that gives the smaller text (a - b - 1 > 0 and b - a + 1 < 0 are one shape).
+func blindShape(coefs []int64, k int64, op string) string {
+	render := func(cs []int64, k int64, op string) string {
+		cs = append([]int64{}, cs...)
+		sort.Slice(cs, func(i, j int) bool { return cs[i] < cs[j] })
+		cut := ""
+		switch op {
+		case "<=", ">":
+			cut = fmt.Sprintf("cut L<=%d", -k)
+		case "<", ">=":
+			cut = fmt.Sprintf("cut L<=%d", -k-1)
+		default:
+			cut = fmt.Sprintf("eq L=%d", -k)
+		}
+		return fmt.Sprintf("%v %s", cs, cut)
+	}
+	flip := map[string]string{"<": ">", "<=": ">=", ">": "<", ">=": "<=", "==": "==", "!=": "!="}
+	neg := make([]int64, len(coefs))
+	for i, c := range coefs {
+		neg[i] = -c
+	}
+	a, b := render(coefs, k, op), render(neg, -k, flip[op])
+	if b < a {
+		return b
+	}
+	return a
 }
 
 // cmpInLoop: pos stands in the body of a for / range statement of fn.
@@ -2148,10 +2291,19 @@ func branchNamesOf(info *types.Info, parents map[ast.Node]ast.Node, be *ast.Bina
 			case p.Else != nil:
 				en = names(p.Else)
 			case terminates(p.Body):
-				if blk, ok := parents[p].(*ast.BlockStmt); ok {
+				// the last `else if` of a chain whose earlier branches all leave: what follows the chain follows it
+				var top ast.Stmt = p
+				for {
+					up, isIf := parents[top].(*ast.IfStmt)
+					if !isIf || up.Else != top || !terminates(up.Body) {
+						break
+					}
+					top = up
+				}
+				if blk, ok := parents[top].(*ast.BlockStmt); ok {
 					var rest []ast.Node
 					for i, st := range blk.List {
-						if st == ast.Stmt(p) {
+						if st == top {
 							for _, r := range blk.List[i+1:] {
 								rest = append(rest, r)
 							}
